@@ -1,3 +1,39 @@
-(* Props/C03.v — property C03 (work in progress). *)
+(* Props/C03.v — property C03: every single injected fault is rejected and localised.
+   Statements only.  Proofs: Proofs/C0203_segment.v; Spec/C0203_spec.v.
+
+   PARTIAL: segment level only (element faults and too many elements).  Proved: starting from a conformant segment,
+   replacing ONE simple element by a value that draws the non-empty code set cds from its definition (any of: too
+   long, too short, outside the code lists, wrong character class, impossible date or time, missing when required,
+   present when not used) makes validation return false, every error event is filed at that element position, names
+   that element and carries a code of cds, and every code of cds is reported; one extra trailing element gives
+   exactly one error, code 3.  Side conditions, each shown necessary by a witness: the position is mentioned by no
+   syntax note, is not the DTP02 format qualifier, the new value has no control character (for completeness of cds).
+   Not proved: segment-level faults (unknown / out-of-place segment, missing required segment, repeat limits), the
+   attachment of the error to the segment's position and line in the error tree, and that other sets stay accepted:
+   checked on the implementation by single-fault injection into conformant documents. *)
 From Coq Require Import String.
-From PX.Lib Require Import Base.
+From PX.Lib Require Import Base PyStr.
+From PX.Model Require Import Path Segment MapLoad MapTree Element.
+From PX.Spec Require Import C07_valid_wf C15_spec C0203_spec.
+From PX.Proofs Require Import C15_element C07_valid C0203_segment.
+
+Theorem C03_single_element_fault_localised :
+  forall m sn d sg sg' i e x cds,
+    valid_wf m = true -> fmt_wf m = true -> seg_node_of m sn -> notes_wf sn = true ->
+    seg_conforms (ctx_of m) sn d sg = true -> replaced_at sg sg' i x -> child_at sn i = Some (SubE e) ->
+    unmentioned sn i -> is_qualifier_pos sg i = false -> cds <> [] ->
+    (forall code, In code cds <-> draws (ctx_of m) e None (formats_for d sn sg' i e) (Some x) code = true) ->
+    has_control_char x = false ->
+    exists evs, seg_is_valid d (ctx_of m) sn sg' = Ok (false, evs) /\
+      (forall p h, In (p, h) (located None evs) -> p = Some (Z.of_nat i + 1)%Z /\ err_refdes h = e_id e /\ In (err_code h) cds) /\
+      (forall cde, In cde cds -> exists h, In (Some (Z.of_nat i + 1)%Z, h) (located None evs) /\ err_code h = cde).
+Proof. exact single_element_fault_localised. Qed.
+Print Assumptions C03_single_element_fault_localised.
+
+Theorem C03_extra_element_rejected :
+  forall m sn d sg sg' v, valid_wf m = true -> fmt_wf m = true -> seg_node_of m sn -> notes_wf sn = true ->
+    seg_conforms (ctx_of m) sn d sg = true -> length (els sg) = length (s_children sn) -> extended_by sg sg' v ->
+    exists evs h, seg_is_valid d (ctx_of m) sn sg' = Ok (false, evs) /\ filter is_err evs = [h] /\
+      err_code h = cs "3" /\ err_refdes h = Some (fmt_02 (N.of_nat (S (length (s_children sn))))).
+Proof. exact extra_element_rejected. Qed.
+Print Assumptions C03_extra_element_rejected.
